@@ -10,6 +10,7 @@ import (
 	"os"
 	"sort"
 	"strings"
+	"sync"
 
 	"golang.org/x/tools/go/ssa"
 )
@@ -89,10 +90,14 @@ func (p *Program) typeByText(s string) types.Type {
 	return nil
 }
 
+var srcMu sync.Mutex
+
 func (p *Program) srcLine(pos token.Pos) string {
 	if !pos.IsValid() {
 		return ""
 	}
+	srcMu.Lock()
+	defer srcMu.Unlock()
 	ps := p.fset.Position(pos)
 	lines, ok := p.srcLines[ps.Filename]
 	if !ok {
@@ -134,8 +139,50 @@ func (s *State) heapGet(e *Enc, name, srt string) Term {
 	return e.heapInit(name, srt)
 }
 
-func fieldHeapName(si *structInfo, k int) string { return "H." + si.goName + "." + si.fields[k].name }
-func elemHeapName(t types.Type) string          { return "E." + typeKey(t) }
+// heap cell types by heap name (the same name always has the same type)
+var heapTypeMu sync.Mutex
+var heapTypes = map[string]types.Type{}
+
+func fieldHeapName(si *structInfo, k int) string {
+	n := "H." + si.goName + "." + si.fields[k].name
+	heapTypeMu.Lock()
+	heapTypes[n] = si.fields[k].typ
+	heapTypeMu.Unlock()
+	return n
+}
+
+func elemHeapName(t types.Type) string {
+	n := "E." + typeKey(t)
+	heapTypeMu.Lock()
+	heapTypes[n] = t
+	heapTypeMu.Unlock()
+	return n
+}
+
+// heapTyping returns the axiom that every cell of heap array h (a whole-array
+// symbol: an initial version or a havocked one) holds a value of its Go type.
+func (e *Enc) heapTyping(name string, h Term) string {
+	heapTypeMu.Lock()
+	t := heapTypes[name]
+	heapTypeMu.Unlock()
+	if t == nil {
+		return ""
+	}
+	if strings.HasPrefix(name, "E.") {
+		cell := Term{app("select", app("select", h.S, "r!"), "i!"), e.reg.sortOf(t)}
+		f := e.reg.rangeFact(t, cell)
+		if f.S == "true" {
+			return ""
+		}
+		return fmt.Sprintf("(assert (forall ((r! Int) (i! Int)) (! %s :pattern (%s))))", f.S, cell.S)
+	}
+	cell := Term{app("select", h.S, "r!"), e.reg.sortOf(t)}
+	f := e.reg.rangeFact(t, cell)
+	if f.S == "true" {
+		return ""
+	}
+	return fmt.Sprintf("(assert (forall ((r! Int)) (! %s :pattern (%s))))", f.S, cell.S)
+}
 
 // ---------- locations (pointer values are generation-time descriptors) ----------
 
@@ -231,6 +278,18 @@ type Enc struct {
 	checked   map[string]*ssa.BasicBlock
 	ufArith   bool
 	terminal  bool
+	known     map[string]string // expanded term -> numeral, fixed by the split case
+	defs      map[string]string
+	expanded  map[string]string
+	caseVals  []int64 // values of the split expressions in this case (nil = no specialisation)
+	caseRest  bool    // the remainder case: some split expression outside its range
+	caseLabel string
+	phase     int // 0: no cut; 1: up to the cut; 2: from the cut
+	cutInstr  ssa.Instruction
+	quiet     bool // phase 2 before the cut: bind values, emit no obligations / assumptions
+	splits    []SplitSpec
+	scratchLocals map[*ssa.Alloc]Term
+	specVals      map[string]CVal
 }
 
 type modRef struct {
@@ -240,6 +299,7 @@ type modRef struct {
 	all      bool
 	elems    bool
 	ref      Term // object ref / array ref
+	idx      *Term // single element (elems targets only)
 	wild     bool
 	wildCond func(r Term) Term
 }
@@ -249,7 +309,8 @@ func newEnc(p *Program, fn *ssa.Function, fc *FuncC) *Enc {
 		heapInits: map[string]Term{}, vals: map[ssa.Value]Val{}, outState: map[*ssa.BasicBlock]*State{},
 		edgeGuard: map[[2]int]Term{}, blockG: map[*ssa.BasicBlock]Term{}, oblCtr: map[string]int{},
 		loops: map[*ssa.BasicBlock]*loopInfo{}, backEdge: map[[2]int]bool{}, debugVals: map[string][]ssa.Value{},
-		params: map[string]CVal{}, mulSeen: map[string]bool{}, okCur: "true", curGuard: tTrue, checked: map[string]*ssa.BasicBlock{}}
+		params: map[string]CVal{}, mulSeen: map[string]bool{}, okCur: "true", curGuard: tTrue, checked: map[string]*ssa.BasicBlock{},
+		known: map[string]string{}, defs: map[string]string{}, expanded: map[string]string{}, scratchLocals: map[*ssa.Alloc]Term{}, specVals: map[string]CVal{}}
 	return e
 }
 
@@ -282,12 +343,63 @@ func isAtomic(s string) bool {
 
 // def names a term (define-fun) so that it is shared, not copied.
 func (e *Enc) def(prefix string, t Term) Term {
+	if t.Sort == sInt && len(e.known) > 0 && !isNumeral(t.S) {
+		if k, ok := e.known[e.expand(t.S)]; ok {
+			return Term{k, sInt}
+		}
+	}
 	if e.inQuant > 0 || isAtomic(t.S) || (strings.HasPrefix(t.S, "(- ") && isAtomic(t.S[3:len(t.S)-1])) {
 		return t
 	}
 	n := e.freshName(prefix)
 	e.emit("(define-fun %s () %s %s)", n, t.Sort, t.S)
+	if len(e.known) > 0 {
+		e.defs[n] = t.S
+	}
 	return Term{n, t.Sort}
+}
+
+// expand replaces defined names by their definitions (bounded), giving a canonical
+// spelling used to recognise the split expressions whose value is fixed in a case.
+func (e *Enc) expand(s string) string {
+	if len(e.defs) == 0 {
+		return s
+	}
+	var b strings.Builder
+	i := 0
+	for i < len(s) {
+		c := s[i]
+		if c == '(' || c == ')' || c == ' ' {
+			b.WriteByte(c)
+			i++
+			continue
+		}
+		j := i
+		for j < len(s) && s[j] != '(' && s[j] != ')' && s[j] != ' ' {
+			j++
+		}
+		tok := s[i:j]
+		if ex, ok := e.expanded[tok]; ok {
+			b.WriteString(ex)
+		} else if d, ok := e.defs[tok]; ok {
+			ex := tok
+			if len(d) < 400 {
+				ex = e.expand(d)
+				if len(ex) > 600 {
+					ex = tok
+				}
+			}
+			e.expanded[tok] = ex
+			b.WriteString(ex)
+		} else {
+			b.WriteString(tok)
+		}
+		i = j
+		if b.Len() > 4000 {
+			return s
+		}
+	}
+	return b.String()
 }
 
 func (e *Enc) havoc(prefix, srt string) Term {
@@ -310,7 +422,7 @@ func (e *Enc) heapInit(name, srt string) Term {
 // assume adds a fact that holds whenever the current point is reached and all
 // earlier obligations held.
 func (e *Enc) assumeG(guard Term, fact Term) {
-	if fact.S == "true" {
+	if fact.S == "true" || e.quiet {
 		return
 	}
 	f := tImp(guard, fact)
@@ -323,6 +435,9 @@ func (e *Enc) assumeG(guard Term, fact Term) {
 func (e *Enc) assume(fact Term) { e.assumeG(e.curGuard, fact) }
 
 func (e *Enc) obligeG(guard Term, kind, label string, tags []string, cond Term, pos token.Pos) {
+	if e.quiet {
+		return
+	}
 	key := kind + ":" + label
 	e.oblCtr[key]++
 	name := fmt.Sprintf("%s/%s[%s]", funcName(e.fn), kind, label)
@@ -409,6 +524,16 @@ func (e *Enc) divTerm(a, b Term) Term {
 		return Term{app("udiv", a.S, b.S), sInt}
 	}
 	return Term{app("div", a.S, b.S), sInt}
+}
+
+// fold replaces a term whose value is fixed by the split case by that numeral.
+func (e *Enc) fold(t Term) Term {
+	if t.Sort == sInt && len(e.known) > 0 && !isNumeral(t.S) {
+		if k, ok := e.known[e.expand(t.S)]; ok {
+			return Term{k, sInt}
+		}
+	}
+	return t
 }
 
 func isNumeral(s string) bool {
